@@ -288,30 +288,36 @@ func trendInds() []Ind {
 			Fix: func(c *Config) { sort2(&c.P[0], &c.P[1]) },
 			Build: func(c Config) (func([]C) []C, int) {
 				a := trend.NewMacdWithPeriod[float64](c.P[0], c.P[1], c.P[2])
+				if len(c.S) > 0 {
+					a.Ema1.Smoothing, a.Ema2.Smoothing, a.Ema3.Smoothing = c.Sm(0), c.Sm(1), c.Sm(2)
+				}
 				return func(in []C) []C { return o2(a.Compute(in[0])) }, a.IdlePeriod()
 			},
 			Doc: "MACD = 12-Period EMA - 26-Period EMA. Signal = 9-Period EMA of MACD.",
 			Ref: func(c Config, in In) []ref.S {
-				m := ref.SubS(ref.Ema(in[X], c.P[0]), ref.Ema(in[X], c.P[1]))
-				s := ref.Ema(m, c.P[2])
+				m := ref.SubS(ref.EmaK(in[X], c.P[0], c.Sm(0)), ref.EmaK(in[X], c.P[1], c.Sm(1)))
+				s := ref.EmaK(m, c.P[2], c.Sm(2))
 				return []ref.S{ref.Tail(m, s.At), s}
 			},
-			PriceDeg: []int{1, 1}, VolDeg: []int{0, 0}, Recursive: true,
+			PriceDeg: []int{1, 1}, VolDeg: []int{0, 0}, Recursive: true, NS: 3,
 		},
 		{
 			Name: "MassIndex", Inputs: []string{High, Low}, Params: []Param{per("ema1", 9), per("ema2", 9), per("sum", 25)}, Outs: []string{"mi"},
 			Build: func(c Config) (func([]C) []C, int) {
 				a := trend.NewMassIndex[float64]()
 				a.Ema1.Period, a.Ema2.Period, a.MovingSum.Period = c.P[0], c.P[1], c.P[2]
+				if len(c.S) > 0 {
+					a.Ema1.Smoothing, a.Ema2.Smoothing = c.Sm(0), c.Sm(1)
+				}
 				return func(in []C) []C { return o1(a.Compute(in[0], in[1])) }, a.IdlePeriod()
 			},
 			Doc: "Single EMA = EMA(9, Highs - Lows); Double EMA = EMA(9, Single EMA); Ratio = Single EMA / Double EMA; Mass Index = SUM(Ratio, 25)",
 			Ref: func(c Config, in In) []ref.S {
-				e1 := ref.Ema(ref.SubS(in[High], in[Low]), c.P[0])
-				e2 := ref.Ema(e1, c.P[1])
+				e1 := ref.EmaK(ref.SubS(in[High], in[Low]), c.P[0], c.Sm(0))
+				e2 := ref.EmaK(e1, c.P[1], c.Sm(1))
 				return []ref.S{ref.WinSum(ref.DivS(e1, e2), c.P[2])}
 			},
-			PriceDeg: []int{0}, VolDeg: []int{0}, Recursive: true,
+			PriceDeg: []int{0}, VolDeg: []int{0}, Recursive: true, NS: 2,
 		},
 		{
 			Name: "Mlr", Inputs: []string{X, Y}, Params: []Param{per("period", 14)}, Outs: []string{"r"},
@@ -400,16 +406,19 @@ func trendInds() []Ind {
 			Build: func(c Config) (func([]C) []C, int) {
 				a := trend.NewTema[float64]()
 				a.Ema1.Period, a.Ema2.Period, a.Ema3.Period = c.P[0], c.P[1], c.P[2]
+				if len(c.S) > 0 {
+					a.Ema1.Smoothing, a.Ema2.Smoothing, a.Ema3.Smoothing = c.Sm(0), c.Sm(1), c.Sm(2)
+				}
 				return func(in []C) []C { return o1(a.Compute(in[0])) }, a.IdlePeriod()
 			},
 			Doc: "TEMA = (3 * EMA1) - (3 * EMA2) + EMA3; EMA1 = EMA(values); EMA2 = EMA(EMA1); EMA3 = EMA(EMA2)",
 			Ref: func(c Config, in In) []ref.S {
-				e1 := ref.Ema(in[X], c.P[0])
-				e2 := ref.Ema(e1, c.P[1])
-				e3 := ref.Ema(e2, c.P[2])
+				e1 := ref.EmaK(in[X], c.P[0], c.Sm(0))
+				e2 := ref.EmaK(e1, c.P[1], c.Sm(1))
+				e3 := ref.EmaK(e2, c.P[2], c.Sm(2))
 				return []ref.S{ref.AddS(ref.SubS(ref.ScaleS(e1, 3), ref.ScaleS(e2, 3)), e3)}
 			},
-			PriceDeg: []int{1}, VolDeg: []int{0}, Recursive: true,
+			PriceDeg: []int{1}, VolDeg: []int{0}, Recursive: true, NS: 3,
 		},
 		{
 			Name: "Trima", Inputs: []string{X}, Params: []Param{per("period", 15)}, Outs: []string{"trima"},
